@@ -261,6 +261,8 @@ func partB(run *hx.Run, r *hx.Rand) {
 	timed("B5 (wait for the round trips)", b5 != nil, func() { b5.finish() })
 	// B4: packagings of workspaces that vendor files at well-known-type paths (partb4.go)
 	timed("B4", on("b4"), func() { partB4(run, r.Fork(7000), b, root) })
+	// X3: the extension bits through the real binary (partx.go)
+	timed("X3", on("x3") && len(xBuiltWS) > 0, func() { partX3(run, r.Fork(9000), b, xBuiltWS) })
 	run.Set("buf_process_runs", b.count)
 }
 
